@@ -68,6 +68,10 @@ def prepare_problem(
     zone_tree, streams, utilities, zone_config = _validate_input_data(
         zone_tree, streams, utilities, zone_config
     )
+    # The root zone carries the name of the root of the (given or synthesised) zone tree, to
+    # which the stream labels have just been rewritten; an option that names the top zone
+    # differently must not detach the streams from the tree
+    zone_config.TOP_ZONE_NAME = zone_tree.name
     master_zone = Zone(
         name=zone_config.TOP_ZONE_NAME, identifier=zone_config.TOP_ZONE_IDENTIFIER, zone_config=zone_config
     )
